@@ -27,22 +27,22 @@ type SolverStats struct {
 }
 
 type Solver struct {
-	bin      string
-	cmd      *exec.Cmd
-	in       *bufio.Writer
-	inRaw    io.WriteCloser
-	out      *bufio.Reader
-	bv       bool
-	emitted  map[int]bool
-	declUF   map[string]bool
-	perm     []string // permanent commands of the current run scope
-	timeout  int      // ms
-	Stats    SolverStats
-	seq      int
-	lastErr  string
-	dumpDir  string // when set, every query is also written there
-	dumpN    int
-	lastFile string
+	bin       string
+	cmd       *exec.Cmd
+	in        *bufio.Writer
+	inRaw     io.WriteCloser
+	out       *bufio.Reader
+	bv        bool
+	emitted   map[int]bool
+	declUF    map[string]bool
+	perm      []string // permanent commands of the current run scope
+	timeout   int      // ms
+	Stats     SolverStats
+	seq       int
+	lastErr   string
+	dumpDir   string // when set, every query is also written there
+	dumpN     int
+	lastFile  string
 	restarted bool
 	alias     map[int]*Term // proven-equal representatives (path-scoped, set by the executor)
 }
